@@ -7,6 +7,7 @@ import (
 	"crypto/ecdsa"
 	"crypto/elliptic"
 	"errors"
+	"math/big"
 	"sort"
 	"sync"
 )
@@ -273,3 +274,45 @@ func CurvesBad(k *ecdsa.PublicKey) (int, error) {
 	}
 	return 0, errors.New("unknown curve")
 }
+
+// R-DEAD
+type Opts struct {
+	name string
+	n    int
+}
+
+func (o Opts) FillBad() {
+	if o.n == 0 {
+		o.n = 7
+	}
+}
+
+func (o *Opts) FillOK() {
+	if o.n == 0 {
+		o.n = 7
+	}
+}
+
+func GuardBad(o Opts) int {
+	name := o.name
+	o.name = ""
+	if o.name != "" {
+		return len(name)
+	}
+	return use(o)
+}
+
+func GuardOK(o Opts) int {
+	name := o.name
+	o.name = ""
+	if name != "" {
+		return len(name)
+	}
+	return use(o)
+}
+
+func use(o Opts) int { return o.n }
+
+// R-ALIAS (big.Int)
+func BigCopyBad(dst, src *big.Int) { *dst = *src }
+func BigCopyOK(dst, src *big.Int)  { dst.Set(src) }
